@@ -11,8 +11,8 @@ bash "$OUT/run_demo.sh" "$WT/_build" "$WT"; CLEAN=$?
 git -C "$WT" apply "$OUT/patch.diff" || { echo "RESULT patch does not apply"; exit 2; }
 ninja -C "$WT/_build" -j6 >/dev/null 2>&1 || { echo "RESULT mutant build failed"; git -C "$WT" checkout -- .; exit 2; }
 bash "$OUT/run_demo.sh" "$WT/_build" "$WT"; MUT=$?
-/tmp/wt/run_baseline.sh "$WT/_build"; BASE=$?
-if [ $BASE -ne 0 ]; then sleep 20; /tmp/wt/run_baseline.sh "$WT/_build"; BASE=$?; fi
+/tmp/wt/isolated.sh /tmp/wt/run_baseline.sh "$WT/_build"; BASE=$?
+if [ $BASE -ne 0 ]; then sleep 5; /tmp/wt/isolated.sh /tmp/wt/run_baseline.sh "$WT/_build"; BASE=$?; fi
 git -C "$WT" checkout -- .
 ninja -C "$WT/_build" -j6 >/dev/null 2>&1
 echo "RESULT clean_demo=$CLEAN mutant_demo=$MUT baseline=$BASE"
